@@ -140,6 +140,7 @@ pub struct PeerSnapshot {
     pub addrs: Vec<SocketAddr>,
     pub algorithm: &'static str,
     pub init_stage: Option<u8>,
+    pub init_retries: Option<usize>,
     pub current_key: Option<u8>,
     pub key_fps: Option<[u64; 4]>,
 }
@@ -166,6 +167,8 @@ pub struct NodeSnapshot {
     pub claims: Vec<Range>,
     pub peers: Vec<PeerSnapshot>,
     pub pending: Vec<(SocketAddr, Option<u8>)>,
+    /// unanswered repetitions counted by each pending handshake (address order as in `pending`)
+    pub pending_retries: Vec<(SocketAddr, Option<usize>)>,
     pub reconnect: Vec<ReconnectSnapshot>,
     pub table: TableSnapshot,
     pub next_peers: crate::util::Time,
